@@ -24,6 +24,7 @@ func init() {
 const rtP = "internal/core/runtime"
 
 func checkC19(c *Ctx) {
+	c.checkLockPairing("locks.paired", rtP, adtP)
 	c.checkFieldWriters("ownership.field-writers", rtP, "index", map[string][]string{
 		"imports": {"(*Runtime).AddInst", "(*Runtime).LoadBuiltin", "newIndex"}, "importsByBuild": {"(*Runtime).AddInst", "(*Runtime).LoadBuiltin", "newIndex"},
 		"nextUniqueID": {"(*index).getNextUniqueID"}, "builtins": {"(*Runtime).Init"},
